@@ -173,21 +173,20 @@ func (h *responseCache) insert(entry *cacheEntry) {
 	}
 	h.mux.Lock()
 	defer h.mux.Unlock()
-	// See if we need to make room for the new entry
-	for h.currentSizeBytes+len(entry.responseData) >= h.maxBytes {
+	// See if we need to make room for the new entry.
+	// Stop when there is nothing left to remove: the entry fits in an empty cache (checked above).
+	for h.head != nil && h.currentSizeBytes+len(entry.responseData) > h.maxBytes {
 		_ = h.pop()
 	}
-	if h.head == nil {
-		// First entry
+	if h.head == nil || !h.head.expirationTime.Before(entry.expirationTime) {
+		// First entry, or the entry expires before (or together with) the current first one
+		entry.next = h.head
 		h.head = entry
 	} else {
 		// Insert in the linked list, ordered by expiration time
 		var current = h.head
 		for current.next != nil && current.next.expirationTime.Before(entry.expirationTime) {
 			current = current.next
-		}
-		if current == h.head {
-			h.head = entry
 		}
 		entry.next = current.next
 		current.next = entry
